@@ -38,8 +38,81 @@ const NOPS: usize = QUERIES.len() * 2;
 fn isolation(env: &mut Env) -> &'static Vec<(String, String)> {
     static BASE: std::sync::OnceLock<Vec<(String, String)>> = std::sync::OnceLock::new();
     BASE.get_or_init(|| {
+        // a fresh pair of databases per operation: nothing else was ever asked of them
+        (0..NOPS)
+            .map(|op| {
+                let (a, b) = (env.fresh_db(), env.fresh_db());
+                (observe(&a, QUERIES[op / 2], op % 2 == 1), observe(&b, QUERIES[op / 2], op % 2 == 1))
+            })
+            .collect()
+    })
+}
+
+/// Second history alphabet: queries without lookups that would collide in
+/// plausible caches (same unit word under different prefixes, same unit under
+/// different powers, same function with different arguments, same mantissa
+/// with different exponents). (query, raw value, SI value, SI dimensions):
+/// hand-written exact expectations, so a history-dependent answer cannot hide
+/// behind a polluted baseline.
+const UOPS: [(&str, &str, &str, &str); 20] = [
+    ("1 km to m", "1000", "1000", "m^1"),
+    ("1 mm to m", "1/1000", "1/1000", "m^1"),
+    ("1 m to km", "1/1000", "1", "m^1"),
+    ("2 km^2 to m^2", "2000000", "2000000", "m^2"),
+    ("3 km", "3", "3000", "m^1"),
+    ("3 Gm", "3", "3000000000", "m^1"),
+    ("1 kg to g", "1000", "1", "kg^1"),
+    ("1 h to s", "3600", "3600", "s^1"),
+    ("1 ft to in", "12", "381/1250", "m^1"),
+    ("round(2.5)", "3", "3", "1"),
+    ("round(2.5, 1)", "5/2", "5/2", "1"),
+    ("round(-2.5)", "-3", "-3", "1"),
+    ("floor(-2.5)", "-3", "-3", "1"),
+    ("1e3", "1000", "1000", "1"),
+    ("1e-3", "1/1000", "1/1000", "1"),
+    ("10%", "1/10", "1/10", "1"),
+    ("2 ^ 3", "8", "8", "1"),
+    ("2 ^ -3", "1/8", "1/8", "1"),
+    ("(2 m) ^ 2", "4", "4", "m^2"),
+    ("1 km + 1 km", "2", "2000", "m^1"),
+];
+
+fn uop_ok(db: &anything::Db, k: usize) -> Result<(), String> {
+    let (q, raw, si, dim) = UOPS[k];
+    let parse = |s: &str| -> num::BigRational {
+        match s.split_once('/') {
+            Some((n, d)) => num::BigRational::new(n.parse().unwrap(), d.parse().unwrap()),
+            None => num::BigRational::from_integer(s.parse().unwrap()),
+        }
+    };
+    match obs::eval_one(db, q) {
+        Ok(Res::Ok { value, unit, .. }) => {
+            if value != parse(raw) {
+                return Err(format!("`{q}` = {value}, expected {raw}"));
+            }
+            match units::si_of(&value, &unit, false) {
+                Ok(s) if s.value == parse(si) && crate::tables::dim_text(&s.dim) == dim => Ok(()),
+                Ok(s) => Err(format!("`{q}` = {} in SI, expected {si} [{dim}]", s.short())),
+                Err(e) => Err(format!("`{q}`: {e}")),
+            }
+        }
+        Ok(Res::Err { msg, .. }) => Err(format!("`{q}` failed: {msg}")),
+        Err(e) => Err(format!("`{q}`: {e}")),
+    }
+}
+
+/// Which operations answer correctly the first time they are evaluated in
+/// this process (an operation that is wrong even then is another property's
+/// subject, not history dependence).
+fn uop_first(env: &mut Env) -> &'static Vec<bool> {
+    static FIRST: std::sync::OnceLock<Vec<bool>> = std::sync::OnceLock::new();
+    FIRST.get_or_init(|| {
+        // evaluated in both orders on two databases: correct "the first time" if either is
         let (a, b) = (env.fresh_db(), env.fresh_db());
-        (0..NOPS).map(|op| (observe(&a, QUERIES[op / 2], op % 2 == 1), observe(&b, QUERIES[op / 2], op % 2 == 1))).collect()
+        let fwd: Vec<bool> = (0..UOPS.len()).map(|k| uop_ok(&a, k).is_ok()).collect();
+        let mut bwd: Vec<bool> = (0..UOPS.len()).rev().map(|k| uop_ok(&b, k).is_ok()).collect();
+        bwd.reverse();
+        fwd.iter().zip(bwd.iter()).map(|(x, y)| *x || *y).collect()
     })
 }
 
@@ -122,7 +195,7 @@ impl Prop for C18 {
         false
     }
     fn rule(&self) -> String {
-        "histories: all sequences of length <=3 (thorough <=4) over 18 operations (9 queries: literal-only, one fact, two facts, facts inside a function call, an error after a lookup, a cast of a fact, a single word carried by several constants, the full word set of one of those, a three-result query whose middle expression fails after a lookup; each with descriptions off/on; a history is judged only if each of its operations answers identically on two independent fresh databases), each history executed on one shared Db instance that also served all earlier histories of the worker; after every step the operation's observation (values, error text+range, descriptions) must equal its observation on a fresh Db, and describe on/off must give the same values. multi-result queries: (A) (B), (B) (A), (A) (B) (A') over 5+5 expressions with disjoint phrase sets (values, failing after a lookup, failing without one): the phrases of every computed result must be reported, in order, whatever fails before or after it. expressions: all trees with <=3 operands over {2, 0.5, 4 fact phrases} x {+ - * /} with explicit grouping; value with describe = value without = reference evaluation with the described constants substituted; descriptions = the phrases as written, one per phrase occurrence, in the evaluation order inferred from the two-phrase expressions. Non-trivial = the history/expression contains at least one fact lookup; distinct = distinct histories/expressions".into()
+        "histories: all sequences of length <=3 (thorough <=4) over 18 operations (9 queries: literal-only, one fact, two facts, facts inside a function call, an error after a lookup, a cast of a fact, a single word carried by several constants, the full word set of one of those, a three-result query whose middle expression fails after a lookup; each with descriptions off/on; a history is judged only if each of its operations answers identically on two independent fresh databases), each history executed on one shared Db instance that also served all earlier histories of the worker; after every step the operation's observation (values, error text+range, descriptions) must equal its observation on a fresh Db, and describe on/off must give the same values. lookup-free histories: all sequences of length <=3 over 20 unit / number / function queries that would collide in plausible caches (one unit word under several prefixes and powers, one function with different arguments, one mantissa with different exponents), each step compared with a hand-written exact expectation. multi-result queries: (A) (B), (B) (A), (A) (B) (A') over 5+5 expressions with disjoint phrase sets (values, failing after a lookup, failing without one): the phrases of every computed result must be reported, in order, whatever fails before or after it. expressions: all trees with <=3 operands over {2, 0.5, 4 fact phrases} x {+ - * /} with explicit grouping; value with describe = value without = reference evaluation with the described constants substituted; descriptions = the phrases as written, one per phrase occurrence, in the evaluation order inferred from the two-phrase expressions. Non-trivial = the history/expression contains at least one fact lookup; distinct = distinct histories/expressions".into()
     }
     fn assumptions(&self) -> Vec<String> {
         vec![
@@ -150,6 +223,17 @@ impl Prop for C18 {
                 }
                 if done {
                     break;
+                }
+            }
+        }
+        // histories over the lookup-free alphabet: all sequences of length <= 3
+        let n = UOPS.len();
+        for a in 0..n {
+            sink(Case::new("uhistory", format!("{a}")));
+            for b in 0..n {
+                sink(Case::new("uhistory", format!("{a},{b}")));
+                for c in 0..n {
+                    sink(Case::new("uhistory", format!("{a},{b},{c}")));
                 }
             }
         }
@@ -190,15 +274,15 @@ impl Prop for C18 {
             if ops.iter().any(|op| iso[*op].0 != iso[*op].1) {
                 return Verdict::DontCare("an operation answers differently on two fresh databases (C14's subject)");
             }
-            // baseline: every operation on a fresh Db (one fresh Db per history)
-            let fresh = env.fresh_db();
+            // baseline: the operation's observation on a fresh Db that served nothing else
+            // (taken once per worker on two independent fresh databases, see `isolation`)
             let mut obs_hash = 0u64;
             let mut state_before = String::new();
             for (step, op) in ops.iter().enumerate() {
                 let (q, describe) = (QUERIES[op / 2], op % 2 == 1);
                 let here = observe(env.db(), q, describe);
-                let alone = observe(&fresh, q, describe);
-                if here != alone && alone == iso[*op].0 {
+                let alone = &iso[*op].0;
+                if &here != alone {
                     return fw::fail(
                         format!("history-dependence:op{op}"),
                         format!("after {:?} the operation `{q}` (describe={describe}) answers {here}; in isolation it answers {alone}", &ops[..step]),
@@ -225,6 +309,22 @@ impl Prop for C18 {
             }
             env.bulk_evals += (ops.len() as u64) * (NOPS as u64 + 2);
             return fw::pass(ops.iter().any(|o| o / 2 != 0), fw::hash_str(&state_before));
+        }
+        if case.fam == "uhistory" {
+            let ops: Vec<usize> = case.key.split(',').map(|s| s.parse().unwrap()).collect();
+            let first = uop_first(env);
+            if ops.iter().any(|k| !first[*k]) {
+                return Verdict::DontCare("an operation of the history is wrong even on its first evaluation (another property's subject)");
+            }
+            for (step, k) in ops.iter().enumerate() {
+                if let Err(why) = uop_ok(env.db(), *k) {
+                    return fw::fail(
+                        format!("history-dependence:u{k}"),
+                        format!("after {:?} on the same database: {why} (the same query answers correctly when it is evaluated first)", ops[..step].iter().map(|i| UOPS[*i].0).collect::<Vec<_>>()),
+                    );
+                }
+            }
+            return fw::pass(ops.len() > 1, fw::hash_str(&case.key));
         }
         if case.fam == "multi" {
             let (kind, rest) = case.key.split_once(':').unwrap();
